@@ -356,7 +356,7 @@ def build_cases(ctx, rng, sources, invalid, tier, budget):
         rng.shuffle(pairs)
         for i in range(0, 48 * mult, 16):
             lists.append(("pair", pairs[i:i + 16]))
-    n_random = (150 if thorough else 8) * mult
+    n_random = (300 if thorough else 8) * mult
     for _ in range(n_random):
         k = rng.choice([0, 1, 1, 1, 2, 2, 3, 4, 5, 6])
         lists.append(("random", [gen_pattern(rng) for _ in range(k)]))
@@ -783,7 +783,7 @@ def run(ctx):
             return done(err)
         t_add = time.time() - ta
         tr = time.time()
-        n_scen = (120 if thorough else 8) * mult
+        n_scen = (200 if thorough else 8) * mult
         rhits, rstats, _, err = judge_remap(ctx, work, rng, seed + (7919 if mult > 1 else 0), n_scen, real_bin, listing_exe)
         if err:
             return done(err)
@@ -841,11 +841,17 @@ def replay(ctx, rp):
     shutil.rmtree(work, ignore_errors=True)
     os.makedirs(work)
     print("argv: %s" % json.dumps(inp.get("argv"), ensure_ascii=True))
+    created = []
     if inp["kind"] == "add_systemd_service":
         for path, content in (inp.get("files") or {}).items():
             if not os.path.exists(path):
+                d = os.path.dirname(path)
+                while d and not os.path.exists(d):
+                    created.append(d)
+                    d = os.path.dirname(d)
                 os.makedirs(os.path.dirname(path), exist_ok=True)
                 open(path, "w", encoding="utf-8").write(content)
+                created.insert(0, path)
         lay = inp.get("layout") or {}
         src = {"kind": "builtin", "name": lay["builtin"]} if "builtin" in lay else {"kind": "file", "path": lay.get("file", "")}
         loaded = harness_load(ctx, [("--builtin", src["name"]) if src["kind"] == "builtin" else ("--file", src["path"])])
@@ -891,4 +897,9 @@ def replay(ctx, rp):
         print("REPRODUCED" if n else "NOT REPRODUCED on the current tree")
     print("recorded observed: %s" % json.dumps(rp.get("observed"), ensure_ascii=True)[:600])
     shutil.rmtree(work, ignore_errors=True)
+    for x in created:        # the file first, then the directories made for it, innermost first
+        try:
+            os.remove(x) if os.path.isfile(x) else os.rmdir(x)
+        except OSError:
+            pass
     return 0
